@@ -156,7 +156,7 @@ DELTAS_US = [0, 1, 400000, 1000000, 60 * 1000000, 61 * 1000000, 59 * 60 * 100000
 
 def gen_archive(rng, tier):
     kind = rng.choice(["archiver", "archiver", "template-hour", "template-day", "template-name", "template-field", "template-minute", "archive-uri",
-                      "template-hour-zst", "template-hour-lz4", "template-hour-bz2", "template-tilde"])
+                      "template-hour-zst", "template-hour-lz4", "template-hour-bz2", "template-tilde", "template-hour-jsonl", "template-hour-csv"])
     n_ops = rng.choice([3, 5, 8, 12, 20, 30]) if tier == "quick" else rng.choice([3, 6, 10, 20, 40])
     burst = rng.random() < 0.5  # many events inside one second
     ops = []
@@ -668,6 +668,8 @@ def expected_path(plan, root, name, gen_ts, s):
         return "%s/m/%s-%s.records" % (root, name, gen_ts.strftime("%Y%m%dT%H%M"))
     if kind == "template-tilde":
         return "/simfs/cwd/~/arch/%s-%s.records.gz" % (name, gen_ts.strftime("%Y%m%dT%H"))
+    if kind in ("template-hour-jsonl", "template-hour-csv"):
+        return "%s/%s-%s.%s" % (root, name, gen_ts.strftime("%Y%m%dT%H"), kind.rsplit("-", 1)[1])
     if kind.startswith("template-hour-"):
         return "%s/%s-%s.records.%s" % (root, name, gen_ts.strftime("%Y%m%dT%H"), kind.rsplit("-", 1)[1])
     raise ValueError(kind)
@@ -691,6 +693,8 @@ def make_archiver(plan, root, name):
         "template-hour-zst": root + "/{name}-{record._generated:%Y%m%dT%H}.records.zst",
         "template-hour-lz4": root + "/{name}-{record._generated:%Y%m%dT%H}.records.lz4",
         "template-hour-bz2": root + "/{name}-{record._generated:%Y%m%dT%H}.records.bz2",
+        "template-hour-jsonl": root + "/{name}-{record._generated:%Y%m%dT%H}.jsonl",
+        "template-hour-csv": root + "/{name}-{record._generated:%Y%m%dT%H}.csv",
     }[kind]
     return PathTemplateWriter(tmpl, name=name)
 
